@@ -575,6 +575,9 @@ func F12(maxLen int, variants []string) []*Case {
 		func() *ag.Expr { return ag.S(ag.U(ag.Opt, A()), lit("x")) },
 		func() *ag.Expr { return ag.A(ag.S(ag.U(ag.Cap, A()), lit("x")), ag.S(lit("a"), lit("y"))) },
 		func() *ag.Expr { return ag.S(ag.U(ag.Star, ag.S(lit("x"), A())), ag.U(ag.Not, ag.D())) },
+		// a bare rule reference under * and +: the iteration that ends the loop may fail after consuming
+		func() *ag.Expr { return ag.S(ag.U(ag.Star, A()), lit("b")) },
+		func() *ag.Expr { return ag.A(ag.S(ag.U(ag.Plus, A()), lit("b")), lit("b")) },
 	}
 	aBodies := []func() *ag.Expr{
 		func() *ag.Expr { return ag.U(ag.Not, ag.U(ag.Star, a())) },       // never
